@@ -76,6 +76,10 @@ def versions_oracle(interp, name, args, t, body):
     for a in args[:1]:
         v = interp.deref_all(a)
         if v is not None and v[0] == 'opaque' and v[1].startswith('versions'):
+            # a helper of the SET that is merely handed the version vectors together with the set's own maps is not a question to the
+            # version vectors: its body is interpreted (the questions it asks are intercepted there)
+            if any((interp.deref_all(x) or ('',))[0] == 'map' for x in args[1:]):
+                return None
             ty = body.local_ty(t['dest']['l'])
             if ty == 'bool':
                 return absint.mk_bool(interp.choose('%s.%s' % (v[1], last_seg(name))))
